@@ -220,14 +220,17 @@ class _JaxtypingLoader(SourceFileLoader):
             compile, tree, path, "exec", dont_inherit=True, optimize=_optimize
         )
 
-    def exec_module(self, module):
+    def get_code(self, fullname):
         # Use a custom optimization marker - the import lock should make this monkey
-        # patch safe
+        # patch safe.
+        # Only whilst fetching (or compiling and caching) the code of this module, and
+        # not whilst executing it: imports made from the module's body must read and
+        # write their own `__pycache__` entries, not ones carrying our marker.
         with patch(
             "importlib._bootstrap_external.cache_from_source",
             ft.partial(_optimized_cache_from_source, self._typechecker.get_hash()),
         ):
-            return super().exec_module(module)
+            return super().get_code(fullname)
 
 
 class _JaxtypingFinder(MetaPathFinder):
